@@ -13,6 +13,7 @@ CONSTANTS
   PairFeats = {}
   FocusKinds = {}
   CtxMode = "one"
+  PreSaves = {FALSE}
 INVARIANTS Inv_Identity Inv_Silent Inv_Exact Inv_NothingEarly
 PROPERTIES Act_SavePure Act_OpenReads
 CHECK_DEADLOCK FALSE
